@@ -290,6 +290,24 @@ def codec_rule(rep, u, order):
         for prefix in range(0, 9):
             ib = dict(BASE)
             ib.update({"pub_key_size": size, "curve->m": 8 * B, "pub_key_x[0]": prefix})
+            if size == 1 + 2 * B and prefix in (6, 7):
+                # hybrid form (X9.62 / SEC 1 2.3.4): the prefix carries the parity of y: accepted iff it agrees with the y read
+                for odd in (0, 1):
+                    ib2 = dict(ib)
+                    ib2[oddk] = odd
+                    iev, iret = pe.trace(imp, ib2)
+                    iname = "import[%s size=1+2*bytes prefix=%d y_odd=%d]" % (order, prefix, odd)
+                    idesc = "a hybrid encoding is accepted iff its prefix bit equals the parity of the y it carries"
+                    if isinstance(iret, str):
+                        rep.undecided("R-CODEC", imp, iname, idesc, iret)
+                        continue
+                    n += 1
+                    if (iret == 0) == ((prefix & 1) == odd):
+                        rep.proved("R-CODEC", imp, iname, idesc, "returns %s" % iret)
+                    else:
+                        rep.violated("R-CODEC", imp, iname, idesc, "returns %s: prefix %02x is taken like 04 and its parity bit never compared with y "
+                                     "(06 || Gx || Gy with odd Gy imports as (Gx, Gy))" % (iret, prefix))
+                continue
             iev, iret = pe.trace(imp, ib)
             iname = "import[%s size=%s prefix=%d]" % (order, {1: "1", B: "bytes", B + 1: "1+bytes", 2 * B: "2*bytes", 2 * B + 1: "1+2*bytes"}.get(size, "other:%d" % size), prefix)
             idesc = "sizes and prefixes outside the encodings are rejected, the standard ones accepted"
